@@ -94,7 +94,8 @@ func genScript(name string, faultP float64, idx int) *Script {
 		for st := StepHandshake; st < nSteps; st++ {
 			if simrt.Flip("plugin.fault", faultP) {
 				k := faultActs[simrt.Choice("plugin.fault-kind", len(faultActs))]
-				s.Steps[st] = Action{Kind: k, At: simrt.Choice("plugin.trunc-at", 512), N: simrt.Choice("plugin.garbage", 4096)}
+				s.Steps[st] = Action{Kind: k, At: simrt.Choice("plugin.trunc-at", 512), N: simrt.Choice("plugin.garbage", 4096),
+					Trail: []int{0, 0, 100, 5000, 70000}[simrt.Choice("plugin.trail", 5)]}
 			}
 		}
 		s.ByteWrites = simrt.Flip("plugin.byte-writes", 0.2)
